@@ -7,6 +7,8 @@ def kindOf (t : String) : Kind :=
   let parts := t.splitOn ":"
   match parts with
   | ["block"] | ["block", _] => .block
+  -- a `try_table` without handlers nests like a block and takes no special mode (the family never asks for one on it)
+  | ["try_table"] | ["try_table", _] => .block
   | ["loop"] | ["loop", _] => .loop
   | ["if"] | ["if", _] => .if_
   | ["else"] => .else_
